@@ -281,7 +281,12 @@ def conformance(h, ex, seed, k, apply_stubs=True):
     names = sorted(ex2.symbols)
     attempts = 0
     plain_used = False
+    t_start = time.time()
+    wall_cap = 45.0 if k <= 2 else 150.0          # sampling is evidence about the engine, not a proof step: never let it eat the instance's hard limit
     while res["samples"] - res["skipped"] < k and attempts < 6 * k:
+        if time.time() - t_start > wall_cap:
+            res["capped"] = True
+            break
         attempts += 1
         s.push()
         # nudge towards different points: random box constraints that may be unsat (then another box is tried)
@@ -339,7 +344,7 @@ def check_property(prop, tier, seed, jobs):
         for label, _ in o.instances(tier):
             tasks.append((o.id, label, tier, seed))
     bnds = [b for b in registry.BOUNDED.values() if prop in b.props]
-    results = run_tasks(tasks, jobs, 400 if tier == "quick" else 1800)
+    results = run_tasks(tasks, jobs, 400 if tier == "quick" else 2700)
     bres = []
     for b in bnds:
         tb = time.time()
